@@ -85,7 +85,13 @@ impl ArrivalCurvePrefix {
                 .map(|(i, _)| i)
                 .next();
             let i = step.unwrap_or(self.steps.len());
-            self.steps[i - 1].1
+            // no step at or below delta (an empty prefix, or a first step later than
+            // delta): no arrivals
+            if i == 0 {
+                0
+            } else {
+                self.steps[i - 1].1
+            }
         }
     }
 }
